@@ -104,7 +104,12 @@ def random_handle_history(rng, hid, ver, maxbuf, nops=40, init=None):
                     d = d if rng.random() < 0.5 else -d
                 ops.append({"op": "seek", "whence": wh, "d": d, "sym": ""})
         elif r < 0.75:
-            ops.append({"op": "set_len", "n": rng.choice(SZ)})
+            if rng.random() < 0.1:
+                ops.append({"op": "set_len", "n": 0, "sym": rng.choice(["u64max", "u64max1", "i64max"])})
+                ops.append({"op": "len"})
+                ops.append({"op": "position"})
+            else:
+                ops.append({"op": "set_len", "n": rng.choice(SZ)})
         elif r < 0.83:
             ops.append({"op": "flush"})
             ops.append({"op": "fresh_read"})
@@ -185,6 +190,9 @@ def refused_seek_histories(tier):
                     for (wh, d, sym) in bads:
                         ops += [{"op": "write", "runs": [[f.next(), wn]]}, {"op": "position"},
                                 {"op": "seek", "whence": wh, "d": d, "sym": sym}, {"op": "position"}, {"op": "len"}]
+                    for sym in ("u64max", "i64max"):
+                        ops += [{"op": "write", "runs": [[f.next(), wn]]}, {"op": "set_len", "n": 0, "sym": sym},
+                                {"op": "len"}, {"op": "position"}, {"op": "seek", "whence": "end", "d": 0, "sym": ""}, {"op": "position"}]
                     ops += [{"op": "flush"}, {"op": "fresh_read"}]
                     hs.append({"id": f"rs{i}", "ver": ver, "maxbuf": mb, "mode": "plain", "streams": streams, "ops": ops, "hash": True})
                     i += 1
